@@ -218,7 +218,8 @@ def gen_ops(rng: random.Random, P: Profile, scn: Scn, evs):
         elif r < P.p_activate + P.p_reconstruct:
             ops.append(("reconstruct",))
         elif rng.random() < P.p_unknown_event:
-            ops.append(("send", rng.randrange(1, len(EVENTS))))
+            # any name of the pool, declared or not, including the reserved `__initial__` (id 0)
+            ops.append(("send", rng.randrange(0, len(EVENTS))))
         else:
             ops.append(("send", rng.choice(evs)))
     scn.ops = ops
